@@ -39,5 +39,6 @@ package test
 //@   requires state != nil && target != nil && target.Test != nil
 //@   opt nopanic=off
 //@   opt precall=off
+//@   opt inline=off
 //@   opt panics=allowed
 //@   callsite cacheOutputFiles only_when_all_succeeded [C11]: target.Test.Results.TestCases.AllSucceeded()
